@@ -26,6 +26,7 @@ BIGPOW_EXPONENTS = {"quick": range(4, 10), "thorough": range(4, 14)}
 BIGPOW_NC_MAX = 9          # distribute(commutative=False) keeps all 2**n terms: only up to here
 HISTORY_POOL = {"quick": 6, "thorough": 12}
 POWPOW_EXPONENTS = {"quick": (-1, 2, 3), "thorough": (-2, -1, 0, 2, 3)}
+QUOT_DENOMINATORS = {"quick": (3, -3, 5), "thorough": (3, -3, 5, 7, 6, 10)}   # not powers of two
 POLY_MAX_EXP = 3                                            # exponents 0..3 in the poly4 family
 SHORT_MANTISSA_BITS = 32
 FLOAT_SETS = {                                              # boundary magnitudes of float constants
@@ -67,6 +68,9 @@ def decode_float(f: float) -> Fraction:
     return near
 
 
+FACE_VALUE = {"on": False}      # floats taken as the exact dyadic they are (no decoding)
+
+
 def xeval(s, env, one=Fraction(1)):
     """Exact value of a spec of the rational fragment.  *env* maps variable names to Fractions,
     RatFuns or Polys.  Raises ZeroDivisionError where the expression is undefined and
@@ -77,6 +81,10 @@ def xeval(s, env, one=Fraction(1)):
     if t == "bool":
         return Fraction(int(s[1]))
     if t == "float":
+        if FACE_VALUE["on"]:
+            if s[1] != s[1] or s[1] in (float("inf"), float("-inf")):
+                raise NotInFragment("non-finite float")
+            return Fraction(s[1])
         return decode_float(s[1])
     if t == "frac":
         return Fraction(s[1], s[2])
@@ -118,10 +126,15 @@ def xeval(s, env, one=Fraction(1)):
     raise NotInFragment(t)
 
 
-def rf_value(s, names):
-    """Spec -> RatFun over formal atoms (may raise ZeroDivisionError / NotInFragment)."""
+def rf_value(s, names, face_value=False):
+    """Spec -> RatFun over formal atoms (may raise ZeroDivisionError / NotInFragment).  With
+    *face_value* float constants are the exact dyadic rationals they are."""
     env = {n: RatFun.atom(n) for n in names}
-    return RatFun.lift(xeval(s, env))
+    FACE_VALUE["on"] = face_value
+    try:
+        return RatFun.lift(xeval(s, env))
+    finally:
+        FACE_VALUE["on"] = False
 
 
 def nc_eval(s, env):
@@ -577,6 +590,46 @@ def powpow(tier):
         yield ("Product", T(binom, p_))
         for q in partners:
             yield ("Sum", T(p_, q))
+
+
+def may_yield_floats(s) -> bool:
+    """Python arithmetic on the constants of *s* can legitimately produce a float: *s* has a float
+    literal, or a variable-free subexpression that divides (a Quotient, a negative literal power)
+    -- the folders evaluate such operands with Python's true division."""
+    for c in walk(s):
+        if c[0] == "float":
+            return True
+        if c[0] == "Quotient" and is_closed(c):
+            return True
+        if c[0] == "Power" and c[2][0] == "int" and c[2][1] < 0 and is_closed(c):
+            return True
+    return False
+
+
+def float_literals(s):
+    return [c[1] for c in walk(s) if c[0] == "float"]
+
+
+def quotient_inputs(tier):
+    """Quotients of composite numerators by integer constants that are not powers of two, alone
+    and as an operand of a product, a power and a quotient (not directly of a sum)."""
+    x, y = V("x"), V("y")
+    nums = [x, ("Sum", T(x, C(1))), ("Sum", T(x, y)), ("Product", T(C(6), x)),
+            ("Product", T(("Sum", T(x, C(1))), ("Sum", T(y, C(2))))), ("Power", x, C(2)),
+            ("Product", T(x, y))]
+    for d in QUOT_DENOMINATORS[tier]:
+        for n in nums:
+            q = ("Quotient", n, C(d))
+            yield q
+            yield ("Product", T(y, q))
+            yield ("Product", T(q, y))
+            yield ("Product", T(C(2), q, ("Sum", T(y, C(1)))))
+            yield ("Power", q, C(2))
+            yield ("Power", q, C(-1))
+            yield ("Quotient", q, y)
+            yield ("Quotient", y, q)
+            yield ("Quotient", q, C(d))
+            yield ("Product", T(q, ("Quotient", y, C(d))))
 
 
 def poly4(tier):
